@@ -19,4 +19,5 @@ func main() {
 	w.C01Transplant()
 	w.C01Policy()
 	w.C01NameTypes()
+	w.C01KeySetHistories()
 }
